@@ -112,6 +112,26 @@ def run(ctx, F, rule="E-CACHE.dm"):
         unl = [i for i, t in B.calls() if (cfg.callee_name(t) or "").endswith("::unlock")]
         ctx.ob(rule, rule + ":post_gc-unlocks", bool(unl),
                "DMApplyCache::post_gc (%s) does not unlock the entries" % F.where(post[0]) if not unl else "unlocks")
+    # ---- levels added / reordered: the cache reacts to pre_reorder ---------------------------------------------
+    # Manager::reorder brackets with pre_gc/post_gc, add_vars* only with pre_reorder/post_reorder: results that
+    # depend on the number of levels (ZBDD restrict embeds tautologies) must not survive a variable addition.
+    prr = find_fn(F, lambda fid, r: fid.startswith("oxidd_cache::direct::") and
+                  (fid.endswith("::pre_reorder") or fid.endswith("::pre_reorder_mut") or fid.endswith("::post_reorder")
+                   or fid.endswith("::post_reorder_mut")))
+    okr = False
+    msg = "DMApplyCache does not implement any reorder event: memoised results survive add_vars (which emits no pre_gc)"
+    for fid in prr:
+        B = cfg.Body(F.mir[fid])
+        names = [cfg.callee_name(t) or "" for _, t in B.calls()]
+        clears = [n for n in names if n.endswith("::clear")]
+        blocking = [n for n in names if re.search(r"::lock$", n)]
+        if clears and not blocking:
+            okr = True
+            msg = "%s (%s) clears the entries it can try_lock" % (F.nice(fid), F.where(fid))
+        elif clears:
+            msg = ("%s (%s) blocks on Entry::lock: inside Manager::reorder the entries are still locked by pre_gc "
+                   "(deadlock)" % (F.nice(fid), F.where(fid)))
+    ctx.ob(rule, rule + ":reorder-clears", okr, msg)
     # ---- operation path never blocks: get_extended / add_extended use try_lock --------------------------
     for nm in ("get_extended", "add_extended"):
         fs = find_fn(F, lambda fid, r: fid.startswith("oxidd_cache::direct::") and fid.endswith("::" + nm))
